@@ -496,6 +496,7 @@ func genItems(rnd interface{ IntN(int) int }, n, budget int, pattern int) []Item
 }
 
 func runC07(c *Cfg) {
+	runSpecial(c, "C07", "batch-attempts-see-live-context")
 	r := c.Rep
 	if RaceEnabled {
 		runBatchRace(c, "C07")
@@ -1133,6 +1134,7 @@ func typedNilItemRun(cc int, stop bool, n int, bad map[int]bool) (errSlots []boo
 }
 
 func runC09(c *Cfg) {
+	runSpecial(c, "C09", "panicking-batch-item")
 	r := c.Rep
 	if RaceEnabled {
 		runBatchRace(c, "C09")
@@ -1499,6 +1501,11 @@ func runC09(c *Cfg) {
 }
 
 func runC11(c *Cfg) {
+	runSpecial(c, "C11", "cancel-inside-a-short-retry-wait")
+	if c.Shard == 0 {
+		c.Rep.Count("cancel_in_short_wait.rounds_decided", cancelShortWaitDecided.Load())
+		c.Rep.Count("cancel_in_short_wait.rounds_canceller_too_late", cancelShortWaitLate.Load())
+	}
 	r := c.Rep
 	if RaceEnabled {
 		runBatchRace(c, "C11")
